@@ -278,6 +278,43 @@ LIBS += [
 ]
 
 
+LIBS += [
+    # a class template with several instantiations whose methods sit inside a block
+    (HEAD % "" + """- decl: template<typename T> class vec
+  cxx_template:
+  - instantiation: <int>
+  - instantiation: <long>
+  - instantiation: <double>
+  declarations:
+  - decl: vec()
+  - block: true
+    declarations:
+    - decl: void clear()
+    - decl: int count()
+  - decl: void push(int n)
+""", "template<typename T> class vec { public: vec(); void clear(); int count(); void push(int n); };"),
+    # default_arg_suffix shorter than the number of variants; the same generic name in two flattened namespaces
+    (HEAD % "" + """- decl: void apply(int a, int b = 0, int c = 0)
+  default_arg_suffix:
+  - _a
+  - _ab
+""", "void apply(int a, int b = 0, int c = 0);"),
+    (HEAD % "" + """- decl: namespace ns1
+  options:
+    F_flatten_namespace: true
+  declarations:
+  - decl: void foo(int a)
+  - decl: void foo(double a)
+- decl: namespace ns2
+  options:
+    F_flatten_namespace: true
+  declarations:
+  - decl: void foo(int a)
+  - decl: void foo(double a)
+""", "namespace ns1 { void foo(int a); void foo(double a); } namespace ns2 { void foo(int a); void foo(double a); }"),
+]
+
+
 # recorded known finding (replayed by the check): overloaded methods of a class template
 KNOWN_TEMPLATE_OVERLOAD = {"yaml": HEAD % "" + """- decl: template<typename T> class Box
   cxx_template:
